@@ -29,7 +29,10 @@ def modes(f, shard):
             yield m
     if f.name in LIST_FORMATS or f.name.startswith("prin.readres"):
         big = (40, 300) if shard["small"] else (40, 300, 1400, 9000)
-        for n in (0, 1, 2, 3, 4, 17) + big:
+        edges = (15, 16, 17, 31, 32, 33, 63, 64, 65, 127, 128, 129, 255, 256, 257)
+        if not shard["small"]:
+            edges = tuple(range(5, 70)) + edges[9:]
+        for n in (0, 1, 2, 3, 4) + edges + big:
             if n > 300 and f.name in ("inquiry.vpd83", "prin.readfullstatus", "reportpriority"):
                 continue  # 2-byte page length / allocation cannot hold that many
             if f.name == "reporttargetportgroups":
